@@ -1,5 +1,6 @@
 """Replay: attach a concrete input of the real code to an obligation that already failed (or whose
-proof annotations were lost).  Never decides anything by itself."""
+proof annotations were lost).  The same searchers also serve as the BOUNDED stand-ins of vx/props.py `bounded_checks`
+(clauses no contract decides): there a hit is a violation, a miss is reported as a bounded unit, never as a proof."""
 import json
 import os
 import re
@@ -102,7 +103,7 @@ def _search_parser(here, out):
     if exe is None:
         return None, "replay harness does not build against the current tree: " + err[-400:]
     try:
-        p = subprocess.run([exe, "search", "4"], capture_output=True, text=True, timeout=600)
+        p = subprocess.run([exe, "search", os.environ.get("VX_REPLAY_DEPTH", "4")], capture_output=True, text=True, timeout=900)
     except subprocess.TimeoutExpired:
         return None, "replay search timeout"
     m = re.search(r"FOUND src=(\".*?\") clause=(.*) tried=(\d+)", p.stdout)
